@@ -58,6 +58,7 @@ def run(ctx: Ctx) -> None:
     ctx.exhaustive_scopes.append(scope)
     ctx.exhaustive_scopes.append(K.run_after_reject(ctx, PROP, depth=ctx.pick(3, 4)))
     ctx.notes.append("directed: " + K.run_sort_scenarios(ctx, PROP))
+    ctx.notes.append("directed: " + K.run_position_scenarios(ctx, PROP))
     K.run_random(ctx, PROP, ctx.pick(2000, 40000), ctx.pick(40, 60))
 
 
